@@ -2996,6 +2996,19 @@ func (p *Posix) PutObject(ctx context.Context, po s3response.PutObjectInput) (s3
 		}
 	}
 
+	// Set object tagging: like every other attribute the tags go onto the
+	// temp file, so that the object never appears without them
+	if tags != nil {
+		b, err := json.Marshal(tags)
+		if err != nil {
+			return s3response.PutObjectOutput{}, fmt.Errorf("marshal tags: %w", err)
+		}
+		err = p.meta.StoreAttribute(f.File(), *po.Bucket, *po.Key, tagHdr, b)
+		if err != nil {
+			return s3response.PutObjectOutput{}, fmt.Errorf("set tags: %w", err)
+		}
+	}
+
 	err = f.link()
 	if errors.Is(err, syscall.EEXIST) {
 		return s3response.PutObjectOutput{
@@ -3005,20 +3018,6 @@ func (p *Posix) PutObject(ctx context.Context, po s3response.PutObjectInput) (s3
 	}
 	if err != nil {
 		return s3response.PutObjectOutput{}, s3err.GetAPIError(s3err.ErrExistingObjectIsDirectory)
-	}
-
-	// Set object tagging
-	if tags != nil {
-		err := p.PutObjectTagging(ctx, *po.Bucket, *po.Key, tags)
-		if errors.Is(err, fs.ErrNotExist) {
-			return s3response.PutObjectOutput{
-				ETag:      etag,
-				VersionID: versionID,
-			}, nil
-		}
-		if err != nil {
-			return s3response.PutObjectOutput{}, err
-		}
 	}
 
 	// Set object legal hold
